@@ -140,18 +140,3 @@ Print Assumptions C01_Id.
 Theorem C01_linear : linear_stmt1 /\ linear_stmt2 /\ linear_stmt3.
 Proof. exact (conj linear_ok1 (conj linear_ok2 linear_ok3)). Qed.
 Print Assumptions C01_linear.
-
-(* convertCorotationnalCauchyStressToSecondPiolaKirchhoffStress(s,U) = det(U) U^-1.s.U^-1 *)
-Theorem C01_cauchy_to_pk2 : cauchy_to_pk2_stmt1 /\ cauchy_to_pk2_stmt2 /\ cauchy_to_pk2_stmt3.
-Proof. exact (conj cauchy_to_pk2_ok1 (conj cauchy_to_pk2_ok2 cauchy_to_pk2_ok3)). Qed.
-Print Assumptions C01_cauchy_to_pk2.
-
-(* convertSecondPiolaKirchhoffStressToCorotationnalCauchyStress(S,U) = U.S.U/det(U) *)
-Theorem C01_pk2_to_cauchy : pk2_to_cauchy_stmt1 /\ pk2_to_cauchy_stmt2 /\ pk2_to_cauchy_stmt3.
-Proof. exact (conj pk2_to_cauchy_ok1 (conj pk2_to_cauchy_ok2 pk2_to_cauchy_ok3)). Qed.
-Print Assumptions C01_pk2_to_cauchy.
-
-(* the two stress conversions are mutually inverse *)
-Theorem C01_pk2_cauchy_roundtrip : pk2_cauchy_roundtrip_stmt1 /\ pk2_cauchy_roundtrip_stmt2 /\ pk2_cauchy_roundtrip_stmt3.
-Proof. exact (conj pk2_cauchy_roundtrip_ok1 (conj pk2_cauchy_roundtrip_ok2 pk2_cauchy_roundtrip_ok3)). Qed.
-Print Assumptions C01_pk2_cauchy_roundtrip.
